@@ -766,6 +766,126 @@ def branch_of(f, node):
     return '%s/%s' % (vel, low)
 
 
+def container_rules(repo, rep, m):
+    """three small dataflow rules of the SINEX code.
+    1. the list of removed parameter numbers (`skip`) is a SET of numbers: its members are the index fields of the estimates of the removed
+       sites, appended one by one; the matrix extraction asks `i not in skip`.  Between the filling and the asking the name may be rebound only
+       to a container with the same members (set / list / tuple / sorted / a copy): a `range(first, last + 1)` also holds every number
+       between two removed stations that are not neighbours in the file.
+    2. a flag that a loop READS to choose the shape of what it builds (9- or 15-field tuples) is not SET inside that same loop: the records
+       met before the first setting are built with the old value.
+    3. a block whose second line is only SOMETIMES a comment (the code itself asks `block[1].startswith('*')`) is not walked from a fixed
+       offset past that line: without the comment the first data line is skipped."""
+    # 1
+    f = m.functions.get('remove_stns_sinex')
+    if f is None:
+        raise AnalysisError('anchor vanished: gnss.remove_stns_sinex')
+    tested = {}
+    for n in ast.walk(f.node):
+        if isinstance(n, ast.Compare) and len(n.ops) == 1 and isinstance(n.ops[0], (ast.In, ast.NotIn)) and isinstance(n.comparators[0], ast.Name):
+            tested.setdefault(n.comparators[0].id, []).append(n)
+    fills = {}
+    for n in ast.walk(f.node):
+        if isinstance(n, ast.Call) and isinstance(n.func, ast.Attribute) and n.func.attr in ('append', 'add') and isinstance(n.func.value, ast.Name) and n.func.value.id in tested:
+            fills.setdefault(n.func.value.id, []).append(n)
+    numeric = [v for v in tested if v in fills and any(isinstance(c.args[0], ast.Name) or 'int(' in stmt_text(c.args[0]) for c in fills[v] if c.args)
+               and any(isinstance(t.left, (ast.BinOp, ast.Name)) for t in tested[v])]
+    key = 'R-INDEX::geodepy/gnss.py::remove_stns_sinex::skip-set'
+    cand = [v for v in numeric if any(isinstance(t.left, ast.BinOp) or (isinstance(t.left, ast.Name) and t.left.id in ('i', 'j', 'row', 'col')) for t in tested[v])]
+    if not cand:
+        rep.undecided('R-INDEX', key, where(f, f.node), 'the container of removed parameter numbers (appended to, then asked `in`) was not recognised')
+    for v in cand:
+        first_test = min(t.lineno for t in tested[v])
+        last_fill = max(c.lineno for c in fills[v])
+        rebinds = [n for n in ast.walk(f.node) if isinstance(n, ast.Assign) and len(n.targets) == 1 and isinstance(n.targets[0], ast.Name) and n.targets[0].id == v
+                   and last_fill < n.lineno < first_test]
+        bad = None
+        unk = None
+        for n in rebinds:
+            e = n.value
+            if isinstance(e, ast.IfExp):
+                es = [e.body, e.orelse]
+            else:
+                es = [e]
+            for x in es:
+                txt = stmt_text(x)
+                same = (isinstance(x, ast.Name) and x.id == v) or (isinstance(x, ast.Call) and getattr(x.func, 'id', '') in ('set', 'frozenset', 'list', 'tuple', 'sorted') and len(x.args) == 1
+                                                                   and isinstance(x.args[0], ast.Name) and x.args[0].id == v) \
+                    or (isinstance(x, ast.Call) and isinstance(x.func, ast.Attribute) and x.func.attr == 'copy' and isinstance(x.func.value, ast.Name) and x.func.value.id == v) \
+                    or (isinstance(x, ast.Subscript) and isinstance(x.value, ast.Name) and x.value.id == v and isinstance(x.slice, ast.Slice) and x.slice.lower is None and x.slice.upper is None)
+                if same:
+                    continue
+                if isinstance(x, ast.Call) and getattr(x.func, 'id', '') == 'range':
+                    bad = (n, txt)
+                else:
+                    unk = (n, txt)
+        if bad:
+            rep.violated('R-INDEX', key, where(f, bad[0]), 'the removed parameter numbers are replaced by `%s` before the matrix extraction asks `not in %s`: every number between the first and the '
+                         'last removed one now counts as removed - removing the 1st and 3rd of five stations also drops the rows and columns of the 2nd' % (bad[1][:60], v),
+                         expected='the numbers appended in the estimate loop, as a list or set', actual=stmt_text(bad[0])[:100])
+        elif unk:
+            rep.undecided('R-INDEX', key, where(f, unk[0]), '`%s` is rebound to `%s` between its filling and its use: membership not decided' % (v, unk[1][:60]))
+        else:
+            rep.holds('R-INDEX', key, where(f, fills[v][0]), '`%s` holds exactly the index fields appended in the estimate loop when the matrix extraction asks `in %s`' % (v, v))
+    # 2
+    for name in ('read_sinex_estimate', 'read_sinex_matrix', 'remove_velocity_sinex', 'remove_stns_sinex', 'remove_matrixzeros_sinex'):
+        g = m.functions.get(name)
+        if g is None:
+            continue
+        key = 'R-TYPESTATE::geodepy/gnss.py::%s::flag-set-while-read' % name
+        hit = None
+        n_flags = 0
+        for lp in ast.walk(g.node):
+            if not isinstance(lp, (ast.For, ast.While)):
+                continue
+            sets = {}
+            for n in ast.walk(lp):
+                if isinstance(n, ast.Assign) and len(n.targets) == 1 and isinstance(n.targets[0], ast.Name) and isinstance(n.value, ast.Constant) and isinstance(n.value.value, bool):
+                    sets.setdefault(n.targets[0].id, []).append(n)
+            for n in ast.walk(lp):
+                if isinstance(n, ast.If):
+                    t = n.test
+                    if isinstance(t, ast.UnaryOp) and isinstance(t.op, ast.Not):
+                        t = t.operand
+                    if isinstance(t, ast.Name) and t.id in sets:
+                        # reading and setting in one loop is the ordinary "inside a block" state machine when the flag is set by the line
+                        # that OPENS the block; what is excluded is a flag whose setting depends on the DATA lines the branch formats
+                        builds = [x for x in ast.walk(n) if isinstance(x, (ast.Tuple,)) and len(getattr(x, 'elts', [])) >= 9]
+                        if builds:
+                            n_flags += 1
+                            hit = hit or (t.id, sets[t.id][0], n)
+        if hit:
+            rep.violated('R-TYPESTATE', key, where(g, hit[1]), '`%s` chooses between the 9- and the 15-field tuple in the loop at line %d and is set to %s inside that same loop (line %d): the '
+                         'first station is built before the flag is raised - with velocity parameters it comes out once as a position-only tuple and once more as a full one' % (
+                             hit[0], hit[2].lineno, stmt_text(hit[1].value), hit[1].lineno), expected='the flag decided in the pass that reads the block, before the parse loop',
+                         actual=stmt_text(hit[1])[:60])
+        else:
+            rep.holds('R-TYPESTATE', key, where(g, g.node), 'no flag that selects the shape of the built records is set inside the loop that reads it', work=False)
+    # 3
+    for name in EDITORS:
+        g = m.functions[name]
+        optional = {}
+        for n in ast.walk(g.node):
+            if isinstance(n, ast.If):
+                for c in ast.walk(n.test):
+                    if isinstance(c, ast.Call) and isinstance(c.func, ast.Attribute) and c.func.attr == 'startswith' and isinstance(c.func.value, ast.Subscript) \
+                            and isinstance(c.func.value.value, ast.Name) and isinstance(c.func.value.slice, ast.Constant) and isinstance(c.func.value.slice.value, int):
+                        optional.setdefault(c.func.value.value.id, set()).add(c.func.value.slice.value)
+        for var, idxs in sorted(optional.items()):
+            key = 'R-INDEX::geodepy/gnss.py::%s::%s-walk' % (name, var)
+            bad = None
+            for n in ast.walk(g.node):
+                if isinstance(n, ast.Subscript) and isinstance(n.value, ast.Name) and n.value.id == var and isinstance(n.slice, ast.Slice) and isinstance(n.slice.lower, ast.Constant) \
+                        and isinstance(n.slice.lower.value, int) and any(n.slice.lower.value > k >= 1 for k in idxs):
+                    bad = n
+            if bad is not None:
+                rep.violated('R-INDEX', key, where(g, bad), '`%s` starts after line %d of the block, which the function itself treats as a comment only when it starts with `*`: in a file '
+                             'without that optional comment line the first data line of the block is skipped (row 1 of the matrix is lost)' % (stmt_text(bad)[:50], max(idxs)),
+                             expected='the whole block walked, data lines recognised by their first character', actual=stmt_text(bad)[:60])
+            else:
+                rep.holds('R-INDEX', key, where(g, g.node), 'the block `%s`, whose line %s is optional, is walked as a whole' % (var, sorted(idxs)), work=False)
+
+
 def run(repo, rep):
     m = repo.module('geodepy.gnss')
     rep.trust('python ast of geodepy/gnss.py; string-shape summaries of its own reader functions (rstrip/strip -> no newline, readline -> newline)')
@@ -776,6 +896,7 @@ def run(repo, rep):
     clock_rules(repo, rep, m)
     prefix_rules(repo, rep, m)
     reader_rules(repo, rep, m)
+    container_rules(repo, rep, m)
     from . import c18x
     c18x.run(rep, m)
     c18x.run2(rep, m)
